@@ -72,6 +72,25 @@ type Ctx struct {
 	nextID int
 	True   *Term
 	False  *Term
+	// Base is the window base variable (assumed < 2^62 by the path condition);
+	// comparisons between Base+c1 and Base+c2 with small offsets fold.
+	Base *Term
+	// BaseAlign, when non-zero, is a divisor of Base asserted in the path condition.
+	BaseAlign uint64
+}
+
+// baseOff reports whether t is Base or Base+const (const < 2^61).
+func (c *Ctx) baseOff(t *Term) (uint64, bool) {
+	if c.Base == nil {
+		return 0, false
+	}
+	if t == c.Base {
+		return 0, true
+	}
+	if t.Op == OpAdd && t.Args[0] == c.Base && t.Args[1].IsConst() && t.Args[1].C < 1<<61 {
+		return t.Args[1].C, true
+	}
+	return 0, false
 }
 
 func NewCtx() *Ctx {
@@ -230,6 +249,21 @@ func (c *Ctx) Eq(a, b *Term) *Term {
 	if a.IsConst() && b.IsConst() {
 		return c.Bool(a.C == b.C)
 	}
+	if oa, ok := c.baseOff(a); ok {
+		if ob, ok := c.baseOff(b); ok {
+			return c.Bool(oa == ob)
+		}
+	}
+	// x+c1 == x+c2
+	if a.Op == OpAdd && b.Op == OpAdd && a.Args[0] == b.Args[0] && a.Args[1].IsConst() && b.Args[1].IsConst() {
+		return c.Bool(a.Args[1].C == b.Args[1].C)
+	}
+	if a.Op == OpAdd && a.Args[0] == b && a.Args[1].IsConst() {
+		return c.Bool(a.Args[1].C == 0)
+	}
+	if b.Op == OpAdd && b.Args[0] == a && b.Args[1].IsConst() {
+		return c.Bool(b.Args[1].C == 0)
+	}
 	if a.W == 0 {
 		if a.IsTrue() {
 			return b
@@ -341,6 +375,11 @@ func (c *Ctx) Bin(op Op, a, b *Term) *Term {
 			return c.Const(w, r)
 		}
 	}
+	if op == OpURem && b.IsConst() && b.C != 0 && c.BaseAlign != 0 && c.BaseAlign%b.C == 0 {
+		if off, ok := c.baseOff(a); ok {
+			return c.Const(w, off%b.C)
+		}
+	}
 	switch op {
 	case OpAdd:
 		if a.IsConst() && a.C == 0 {
@@ -431,6 +470,17 @@ func (c *Ctx) Cmp(op Op, a, b *Term) *Term {
 	}
 	if a == b {
 		return c.Bool(op == OpUle || op == OpSle)
+	}
+	if oa, ok := c.baseOff(a); ok {
+		if ob, ok := c.baseOff(b); ok {
+			// Base < 2^62 and offsets < 2^61: no wrap, signed and unsigned agree
+			switch op {
+			case OpUlt, OpSlt:
+				return c.Bool(oa < ob)
+			case OpUle, OpSle:
+				return c.Bool(oa <= ob)
+			}
+		}
 	}
 	if op == OpUlt && b.IsConst() && b.C == 0 {
 		return c.False
